@@ -99,7 +99,9 @@ class ExprMixin:
 
     def e_List(self, node, env):
         try:
-            return PyList(self.eval_seq(node.elts, env))
+            r = PyList(self.eval_seq(node.elts, env))
+            r.gen = len(self._generic)
+            return r
         except StarOnly as so:
             return so.v
         except StarThen as st:
@@ -139,6 +141,7 @@ class ExprMixin:
 
     def e_Dict(self, node, env):
         cur = PyDict()
+        cur.gen = len(self._generic)
         for k, v in zip(node.keys, node.values):
             if k is None:
                 x = self.eval(v, env)
@@ -530,7 +533,9 @@ class ExprMixin:
             if name == "__class__":
                 return ClassRef(v.cls)
             if name == "__dict__":
-                return PyDict(dict(v.fields))
+                d = PyDict()
+                d.items = v.fields      # live view: obj.__dict__.update(...) sets attributes
+                return d
             if name == "__doc__":
                 return None
             if name == "__module__":
@@ -566,7 +571,7 @@ class ExprMixin:
             nk = self.narrow.get(str(v.term))
             if nk is not None:
                 return self.getattr(Sym("ev", T.ev_of(v.term), nk), name)
-            if name in ("items", "keys", "values", "get", "copy"):
+            if name in ("items", "keys", "values", "get", "copy", "startswith", "strip", "splitlines", "join", "format"):
                 return Builtin_valmethod(v, name)
             if name.startswith("__"):
                 raise Unsupported(f"attribute {name} of opaque value")
